@@ -91,7 +91,14 @@ theorem stack_assoc (s₁ s₂ : Store) (h : s₁.iterator = s₂.iterator)
 
 /-! ### 3. TidOrdered is an invariant of the (repaired) code -/
 
-/-- Starting from an empty storage, whatever is done — as long as a caller who passes an explicit tid
+/-- Concurrency: in the model `begin` is ONE action — the tid is chosen (`beginTid` from
+    `lastTransaction()`) and handed to the changes while the commit lock is held, and the lock is kept
+    until `finish`/`abort` — so overlapping commits are exactly the operation lists below, in the order
+    in which the commit lock was obtained.  That the code chooses the tid only AFTER acquiring
+    `_commit_lock` is an [I] fact the harness checks on the real code (gated commit lock and scheduler
+    runs, signature `C16:commit-tid-order`).
+
+    Starting from an empty storage, whatever is done — as long as a caller who passes an explicit tid
     passes one above `lastTransaction()`; tids taken from the clock need no hypothesis at all, whatever
     the clock reads — every layer is sorted, every changes tid is above every tid below, and
     `lastTransaction()` dominates all tids. -/
